@@ -110,7 +110,16 @@ impl SourceFileAnalyzer {
                         stored = true;
                     }
                 }
-                Err(err) => self.messages.push(DiagnosticMessage::Error(i, err.into())),
+                Err(err) => {
+                    // An illegal character may be several bytes long, so make
+                    // sure the range doesn't end in the middle of it.
+                    let mut range = err.string_range(line.len());
+                    while !line.is_char_boundary(range.end) {
+                        range.end += 1;
+                    }
+                    source_line_ranges.error_range = Some(range);
+                    self.messages.push(DiagnosticMessage::Error(i, err.into()))
+                }
             }
             if stored {
                 self.source_file_map
